@@ -181,6 +181,17 @@ const MESSAGES: &[&str] = &[
 ];
 
 impl<'a> TraceGen<'a> {
+    /// a class name inside the domain of C08/C17's canonical traces: no whitespace (the
+    /// throwable parser rejects classes with spaces and trims), no `(`, not empty
+    fn class_canon(&self, rng: &mut Rng) -> String {
+        for _ in 0..20 {
+            let c = self.class(rng);
+            if !c.is_empty() && !c.chars().any(|ch| ch.is_whitespace() || ch == '(') {
+                return c;
+            }
+        }
+        "x.Y$Z".to_string()
+    }
     fn class(&self, rng: &mut Rng) -> String {
         if !self.u.classes.is_empty() && rng.pct(65) {
             rng.pick(&self.u.classes).clone()
@@ -278,14 +289,14 @@ impl<'a> TraceGen<'a> {
             let many = rng.pct(10);
             let nframes = if d == 0 && !has_exc && canonical { rng.range(1, 4) } else { rng.below(if many { 21 } else { 5 }) };
             if has_exc {
-                let c = self.class(rng);
+                let c = if canonical { self.class_canon(rng) } else { self.class(rng) };
                 let m: Option<String> = if rng.pct(60) { Some(rng.pick(MESSAGES).to_string()) } else { None };
                 t.push_str(&format!("E {} {}", hxs(&c), opt_hxs(m.as_deref())));
             } else {
                 t.push('N');
             }
             for _ in 0..nframes {
-                let c = self.class(rng);
+                let c = if canonical { self.class_canon(rng) } else { self.class(rng) };
                 let m = self.method_for(rng, &c);
                 let file: Option<&str> = if canonical || rng.pct(80) {
                     Some(rng.pick(&["SourceFile", "Foo.java", "<unknown>", "a b", ""]))
@@ -297,6 +308,25 @@ impl<'a> TraceGen<'a> {
         }
         t
     }
+}
+
+/// traces at size thresholds: many frames under one exception, deep cause chains, long messages
+pub fn threshold_traces() -> Vec<String> {
+    let mut v = Vec::new();
+    for n in [127usize, 128, 255, 256, 257, 300] {
+        let mut t = String::from("a: boom\n");
+        for i in 0..n {
+            t.push_str(&format!("    at big.a(F.java:{})\n", i + 1));
+        }
+        v.push(t);
+        let mut c = String::from("a: top\n    at a.m(F:1)\n");
+        for i in 0..n {
+            c.push_str(&format!("Caused by: small: level {}\n    at small.a(F:1)\n", i));
+        }
+        v.push(c);
+    }
+    v.push(format!("a: {}\n    at a.m(F:1)\n", "m".repeat(70000)));
+    v
 }
 
 // ---------------------------------------------------------------- descriptors
@@ -373,6 +403,12 @@ pub fn threshold_sigs() -> Vec<String> {
     }
     v
 }
+
+pub const HOSTILE_TEXT2: &[&str] = &[
+    "at  a.b(c:1)", "at a.b(c:007)", "at a.b(C:\\x.java:12)", "at a.b(c:1) ", "at a.b(c:1)\r", "\tat a.b(c:1)", "at a.b(c: 1)",
+    "at a.b(c:1))", "at a.b((c:1)", "at a..b(c:1)", "at a.b.(c:1)", "Caused by: Caused by: a.b", "Caused by:a.b", "caused by: a.b",
+    "Caused by:  a.b: x", "a.b:", "a.b:  x", "a.b : x", ":", ": x", "a.b: ", "Suppressed: a.b: x", "\u{feff}a.b: x",
+];
 
 pub const HOSTILE_TEXT: &[&str] = &[
     "at )", "at (", "at \u{e9})", "at a.b(c:1)", "at .(:0)", "at a.b(:)", "at a.b(c:+5)", "\u{a0}at a.b(c:5)\u{3000}",
@@ -926,6 +962,7 @@ pub fn gen_c06(rng: &mut Rng, tier: &str, out: &mut Out) {
 
 pub fn gen_c07(rng: &mut Rng, tier: &str, out: &mut Out) {
     let th = thorough(tier);
+    trace_threshold_ops(out, false);
     let n = if th { 12000 } else { 1000 };
     for i in 0..n {
         let text = if i % 6 == 0 { Vec::new() } else { domain_mapping(rng, &Cfg::domain()) };
@@ -943,6 +980,24 @@ pub fn gen_c07(rng: &mut Rng, tier: &str, out: &mut Out) {
         }
         out.d(format!("TXT {}", hxs(&s)));
         out.d(format!("TXT {}", hxs("")));
+    }
+}
+
+fn trace_threshold_ops(out: &mut Out, typ: bool) {
+    let text = threshold_mapping(130);
+    map_op(out, true, &text);
+    for t in threshold_traces() {
+        out.d(format!("TXT {}", hxs(&t)));
+        if typ {
+            out.d(format!("TYP {}", hxs(&t)));
+        }
+    }
+    for s in HOSTILE_TEXT.iter().chain(HOSTILE_TEXT2.iter()) {
+        out.d(format!("TXT {}", hxs(s)));
+        out.d(format!("TXT {}", hxs(&format!("x.Y: m\n{}\nCaused by: {}\n{}", s, s, s))));
+        if typ {
+            out.d(format!("TYP {}", hxs(&format!("x.Y: m\n{}\nCaused by: {}\n{}", s, s, s))));
+        }
     }
 }
 
@@ -969,6 +1024,7 @@ pub fn gen_c08(rng: &mut Rng, tier: &str, out: &mut Out) {
             out.d(format!("TXT {}", hxs(&t)));
         }
     }
+    trace_threshold_ops(out, true);
     // F3 anchor
     map_op(out, true, b"o.A -> a:\n");
     out.d(format!("TYPS E {} {}", hxs("java.lang.RuntimeException"), hxs("boom")));
@@ -1082,11 +1138,21 @@ fn buf_queries(out: &mut Out, rng: &mut Rng, dom: bool, u: &Universe, nline: usi
     out.count("buffers_queried");
 }
 
+pub fn boundary_mapping() -> Vec<u8> {
+    let mut t = String::new();
+    for (i, len) in [127usize, 128, 255, 256, 300, 383, 384, 16383, 16384, 16500].iter().enumerate() {
+        t.push_str(&format!("o.{} -> {}{}:\n    1:1:void m():1:1 -> a\n    {}:{}:void n(int):{}:{} -> b\n", "n".repeat(*len), "q".repeat(if i % 3 == 0 { *len } else { 2 }), i,
+            (1u64 << 16) + i as u64, (1u64 << 24) + i as u64, (1u64 << 31) - 1, (1u64 << 32) - 2));
+    }
+    t.into_bytes()
+}
+
 pub fn gen_c10(rng: &mut Rng, tier: &str, out: &mut Out) {
     let th = thorough(tier);
     let n = if th { 10000 } else { 800 };
     for i in 0..n {
-        let text = if i % 5 == 4 { gen_mapping(rng, &Cfg::hostile()).text } else { domain_mapping(rng, &Cfg::domain()) };
+        let text = if i == 1 { threshold_mapping(130) } else if i == 2 { threshold_mapping(300) } else if i == 3 { boundary_mapping() }
+            else if i % 5 == 4 { gen_mapping(rng, &Cfg::hostile()).text } else { domain_mapping(rng, &Cfg::domain()) };
         let dom = is_representable(&text);
         let u = universe(&text);
         for writer in 0..2 {
@@ -1326,7 +1392,7 @@ pub fn gen_c12(rng: &mut Rng, tier: &str, out: &mut Out) {
         for s in threshold_sigs() {
             out.d(format!("BSIG {}", hxs(&s)));
         }
-        for s in HOSTILE_TEXT {
+        for s in HOSTILE_TEXT.iter().chain(HOSTILE_TEXT2.iter()) {
             out.d(format!("BTXT {}", hxs(s)));
             out.d(format!("BTYP {}", hxs(s)));
         }
@@ -1381,7 +1447,7 @@ pub fn gen_c13(rng: &mut Rng, tier: &str, out: &mut Out) {
     out.d(format!("FRL {} {} 2 -", hxs("a"), hxs("m")));
     map_op(out, true, b"o.A -> a:\n    5:4294967296:void x():1:3 -> m\n");
     out.d(format!("FRL {} {} 0 -", hxs("a"), hxs("m")));
-    for s in HOSTILE_TEXT {
+    for s in HOSTILE_TEXT.iter().chain(HOSTILE_TEXT2.iter()) {
         out.d(format!("FRM {}", hxs(s)));
         out.d(format!("THW {}", hxs(s)));
         out.d(format!("TXT {}", hxs(s)));
@@ -1483,6 +1549,25 @@ pub fn gen_c16(rng: &mut Rng, tier: &str, out: &mut Out) {
 
 pub fn gen_c17(rng: &mut Rng, tier: &str, out: &mut Out) {
     let th = thorough(tier);
+    for t in threshold_traces() {
+        out.d(format!("TRC {}", hxs(&t)));
+    }
+    for s in HOSTILE_TEXT.iter().chain(HOSTILE_TEXT2.iter()) {
+        out.d(format!("FRM {}", hxs(s)));
+        out.d(format!("THW {}", hxs(s)));
+        out.d(format!("TRC {}", hxs(&format!("x.Y: m\n{}\nCaused by: {}\n{}", s, s, s))));
+    }
+    {
+        // deep cause chains / many frames as structured traces
+        for depth in [5usize, 12, 40] {
+            let mut t = String::from("E x612e62 x6d");
+            for d in 0..depth {
+                t.push_str(&format!(" F x61 x62 {} x46", d));
+                t.push_str(&format!(" C E {} -", hxs(&format!("c.L{}", d))));
+            }
+            out.d(format!("DSPS {}", t));
+        }
+    }
     let n = if th { 160000 } else { 12000 };
     let u = universe(b"o.A -> a:\n    1:3:void x():1:3 -> m\no.B$C -> a.b$c:\n    void <init>() -> <init>\n");
     let tg = TraceGen { u: &u };
@@ -1560,6 +1645,18 @@ pub fn gen_c18(rng: &mut Rng, tier: &str, out: &mut Out) {
         w.extend_from_slice(pre);
         out.d(format!("UUID {}", hx(&w)));
     }
+    for base in [&b"a -> b:"[..], b"", b"x", b"a -> b:\n    void m() -> a"] {
+        for suf in [&b""[..], b"\n", b"\r\n", b"\r", b" ", b"\n\n", b"\x00", b"\t"] {
+            let mut v = base.to_vec();
+            v.extend_from_slice(suf);
+            out.d(format!("UUID {}", hx(&v)));
+        }
+    }
+    for len in [54usize, 55, 56, 57, 63, 64, 65, 118, 119, 120, 127, 128, 129, 255, 256, 65535, 65536, 65537] {
+        for fill in [0u8, 0xff, 0x80, b'a'] {
+            out.d(format!("UUID {}", hx(&vec![fill; len])));
+        }
+    }
     for _ in 0..(if th { 400 } else { 60 }) {
         let len = rng.range(1, 300);
         for _ in 0..3 {
@@ -1631,6 +1728,14 @@ pub fn gen_c19(rng: &mut Rng, tier: &str, out: &mut Out) {
         }
         out.d(format!("META {}", hx(&t)));
         out.count("files");
+    }
+    for n in [255usize, 256, 257, 65535, 65536, 65537] {
+        let mut t = String::with_capacity(n * 24);
+        for i in 0..n {
+            t.push_str(&format!("o.C{} -> c{}:\n    void m() -> a\n", i, i));
+        }
+        out.d(format!("META {}", hx(t.as_bytes())));
+        out.count("counter_thresholds");
     }
     for (name, text) in corpus_files() {
         if text.len() > 700_000 && !th {
